@@ -131,3 +131,45 @@ func VerifC06TreeSize() {
 	vrt.Assert(vrt.Implies(c < 32, ts == 0), "no tree below 32 elements")
 	vrt.Assert(vrt.Implies(c >= 32, vrt.And(vrt.And(ts%32 == 0, ts < c), c-ts <= 32)), "tree holds all but the last 1..32 elements")
 }
+
+// VerifC06History: k operations, each applied to a symbolically chosen earlier
+// version (persistent branching); every version is re-checked at the end.
+func VerifC06History(n, k int) {
+	v, m := verifBuild(n)
+	versions := []Vector{v}
+	models := [][]any{m}
+	for step := 0; step < k; step++ {
+		src := vrt.Choice("version", len(versions))
+		cv, cm := versions[src], models[src]
+		var nv Vector
+		var nm []any
+		switch vrt.Choice("op", 3) {
+		case 0:
+			val := vrt.Int("val")
+			nv, nm = cv.Conj(val), append(append([]any{}, cm...), val)
+		case 1:
+			if len(cm) == 0 {
+				continue
+			}
+			pos := []int{0, len(cm) / 2, len(cm) - 1}[vrt.Choice("pos", 3)]
+			val := vrt.Int("val")
+			nv = cv.Assoc(pos, val)
+			nm = append([]any{}, cm...)
+			nm[pos] = val
+		case 2:
+			if len(cm) == 0 {
+				continue
+			}
+			nv, nm = cv.Pop(), cm[:len(cm)-1:len(cm)-1]
+		}
+		vrt.Assert(nv != nil, "operation accepted")
+		if nv == nil {
+			return
+		}
+		versions = append(versions, nv)
+		models = append(models, nm)
+	}
+	for i := range versions {
+		verifSame(versions[i], models[i], "every version keeps its contents")
+	}
+}
